@@ -6,6 +6,7 @@ CONSTANTS
   Hard = 1
   MaxOps = 8
   MaxPokes = 2
+  AllowBad = FALSE
   AllowOrphan = FALSE
 INIT Init
 NEXT Next
